@@ -837,6 +837,18 @@ Theorem C12_mj_tiebreak_conservative : forall rp fuel sub n, NoDup (map fst sub)
   mj_default fuel sub n <> inr SE_stats -> mj_default_x rp fuel sub n = mj_default fuel sub n.
 Proof. intros rp fuel sub n Hnd Hok Hn. exact (mj_default_x_conservative rp fuel sub n (conj Hnd Hok) Hn). Qed.
 
+(* ---- the fuel of the repaired tie-break is enough: the number of scores held by the candidates of the contest goes down in
+   every pass (a seated candidate leaves with its scores; a shared lead costs every level candidate at least one), so the loop
+   started with that number + 1 never runs out; the evaluator hands over that number + 2.  Hence the sharp form of
+   C12_mj_no_crash: majority judgment ANSWERS or refuses a lasting tie (VotingSystemError) - nothing else, SE_fuel included *)
+Theorem C12_mj_fuel_sufficient : forall rp fuel sub n, rp_mj rp = true -> NoDup (map fst sub) -> Forall cs_ok sub ->
+  (Z.to_nat (stot sub) < fuel)%nat -> mj_default_x rp fuel sub n <> inr SE_fuel.
+Proof. intros rp fuel sub n Hrp Hnd Hok. exact (mj_default_x_fuel rp Hrp fuel sub n (conj Hnd Hok)). Qed.
+
+Theorem C12_mj_answers_or_refuses : forall rp plus cf votes n, rp_trunc rp = true -> rp_mj rp = true -> 1 <= n -> profile_pos votes ->
+  match majority_judgment_x rp plus cf votes n with inl _ => True | inr e => e = SE_vse end.
+Proof. exact majority_judgment_x_answers_or_refuses. Qed.
+
 Print Assumptions C12_combinations_complete.
 Print Assumptions C12_combinations_sound.
 Print Assumptions C12_pav_optimal.
@@ -904,3 +916,5 @@ Print Assumptions C12_alloc_answers.
 Print Assumptions C12_alloc_conservative.
 Print Assumptions C12_score_family_conservative.
 Print Assumptions C12_mj_tiebreak_conservative.
+Print Assumptions C12_mj_fuel_sufficient.
+Print Assumptions C12_mj_answers_or_refuses.
